@@ -55,12 +55,16 @@ Visible(k) == HasOwner(k[2]) /\ Owner(k[2]) = k[1]
 AllMods == UNION {ModsOf[n] : n \in Nodes}
 Transparent == Cardinality(Nodes) = 1
 
-(* the description a describe request is answered with *)
+(* the descriptions a describe request may be answered with: one configured node is passed through   *)
+(* (its own equipment id and properties); several nodes are merged under the router's identity, each *)
+(* module once under the name and with the description of its owner.  While only one of several      *)
+(* configured nodes has joined either form is acceptable.                                            *)
 JoinedOrder == SelectSeq(Order, LAMBDA n : n \in Joined)
-Description ==
-    [eq |-> IF Transparent /\ Joined = Nodes THEN Order[1] ELSE "router",
-     parts |-> IF Transparent /\ Joined = Nodes THEN <<>> ELSE JoinedOrder,
-     mods |-> {<<m, Owner(m)>> : m \in {x \in AllMods : HasOwner(x)}}]
+ModOwners == {<<m, Owner(m)>> : m \in {x \in AllMods : HasOwner(x)}}
+Merged == [eq |-> "router", parts |-> JoinedOrder, mods |-> ModOwners]
+PassedThrough(n) == [eq |-> n, parts |-> <<>>, mods |-> ModOwners]
+Descriptions == IF Transparent /\ Joined = Nodes THEN {PassedThrough(Order[1])}
+                ELSE {Merged} \cup {PassedThrough(n) : n \in {x \in Joined : Joined = {x}}}
 
 VARIABLES uval,     \* [Keys -> Entries]   what the upstream node itself currently reports
           open,     \* [Nodes -> BOOLEAN]  the upstream node accepts connections
@@ -248,7 +252,7 @@ Next ==
     \/ \E c \in ReqConns, kind \in Kinds, m \in ReqMods, p \in ReqPars, arg \in ReqArgs, ok \in BOOLEAN,
           x \in Values, ec \in UpErrs, cached \in BOOLEAN :
             /\ (kind = "do") = (p = "go")
-            /\ (kind = "read" => arg = 0) /\ (ok => ec = CHOOSE e \in UpErrs : TRUE) /\ (~ok => x = 0)
+            /\ (kind = "read" => arg = 0) /\ (ok => ec = CHOOSE e \in UpErrs : TRUE) /\ (~ok => x = CHOOSE v \in Values : TRUE)
             /\ (~(kind = "read" /\ ~ok) => cached)
             /\ Request(c, kind, m, p, arg, ok, x, ec, cached)
     \/ \E c \in Conns : Activate(c) \/ Deactivate(c)
